@@ -36,3 +36,7 @@ func (this *RaftTransport) VerifSetPeerClient(nodeId uint64, c pb.RaftTransportC
 func (this *RaftTransport) VerifReceive(ctx context.Context, req *pb.RaftMessage) (*pb.EmptyMessage, error) {
 	return this.Receive(ctx, req)
 }
+
+// VerifRemoveGroup detaches a group from the transport (the harness abandons the goroutines of a "crashed"
+// incarnation and starts a new one over the surviving store).
+func (this *RaftTransport) VerifRemoveGroup(id [16]byte) { this.removeGroup(id) }
